@@ -107,6 +107,7 @@ class Interp:
     def __init__(self, facts, models, max_nodes=400000, trace=False):
         self.F = facts
         self.T = facts['types']
+        self.discr_enum = {}       # un-discr term -> type id of the (field-less library) enum it is the discriminant of
         self.B = dict(facts['bodies'])
         # analysis shims (plain-loop bodies for std's closure-driven iterator drivers): bodies of the interpreter
         self.shims = {b['path'].rsplit('::', 1)[-1]: k for k, b in facts.get('shims', {}).items()}
@@ -471,9 +472,15 @@ class Interp:
                 elif pend_dc is not None:
                     v = SYM('vf', v, 'v%d' % pend_dc, 'f%d' % e[1])
                 else:
-                    if t[0] == 'sym' and t[1] == 'upd':
+                    # a field of an updated symbolic struct: the innermost update of that field, else the base's field
+                    found = None
+                    while t[0] == 'sym' and t[1] == 'upd':
+                        if t[3] == 'f%d' % e[1]:
+                            found = t[4]
+                            break
                         v = t[2]
-                    v = SYM('fld', v, 'f%d' % e[1])
+                        t = VAL[v]
+                    v = found if found is not None else SYM('fld', v, 'f%d' % e[1])
                 pend_dc = None
                 continue
             # pseudo projections: arc / box / index / opaque
@@ -525,7 +532,19 @@ class Interp:
                 fs[i] = self.put(None, rest, val)
                 return AGG('?', 0, fs)
             inner = self.put(SYM('fld', old, 'f%d' % i), rest, val) if rest else val
-            return SYM('upd', old, 'f%d' % i, inner)
+            # updates of a symbolic struct are kept as one layer per field, in field order: re-assigning a field in a
+            # loop replaces the previous update instead of nesting
+            ups = {}
+            base = old
+            while t is not None and t[0] == 'sym' and t[1] == 'upd':
+                ups.setdefault(t[3], t[4])
+                base = t[2]
+                t = VAL[base]
+            ups['f%d' % i] = inner
+            out = base
+            for fname in sorted(ups):
+                out = SYM('upd', out, fname, ups[fname])
+            return out
         name = {'i': 'idx', 'o': 'opaque'}.get(k, k)
         base = old if old is not None else SYM('undef', 'put')
         inner = self.put(SYM('fld', base, name), rest, val) if rest else val
@@ -797,6 +816,13 @@ class Interp:
                 return INT(idx)
             if not vs:
                 return SYM('un', 'discr', v)
+            ety = self.T[rv['of_ty']]
+            if not ety.get('local') and ety.get('adt') not in ('std::option::Option', 'std::result::Result') and all(not x['fields'] for x in vs):
+                # a field-less library enum (io::ErrorKind, cmp::Ordering): `match x { A => .., _ => .. }` is decided by
+                # the switch on its discriminant (arms + otherwise), not by enumerating every variant here
+                d = SYM('un', 'discr', v)
+                self.discr_enum[d] = rv['of_ty']
+                return d
             idx = self.variant_of(st, v, [x['name'] for x in vs], self.T[rv['of_ty']].get('adt', ''))
             return INT(vs[idx].get('discr', idx))
         if k == 'agg':
@@ -987,8 +1013,14 @@ class Interp:
             ev_v = SYM('cmp', 'Eq', tv[3], tv[4]) if flip else v
             if isbool and tv[0] == 'sym' and tv[1] == 'un' and tv[2] == 'Not' and len(tv) > 3:
                 flip, ev_v = True, tv[3]          # `!p is true` is `p is false`
+            enum_ty = self.T[self.discr_enum[v]] if v in self.discr_enum else None
 
             def bev(val):
+                if enum_ty is not None:
+                    # `match kind { NotFound => .. }` reads like `kind == NotFound`
+                    idx = [i for i, x in enumerate(enum_ty['variants']) if x.get('discr', i) == val]
+                    if idx:
+                        return {'k': 'branch', 'val': SYM('cmp', 'Eq', tv[3], AGG(enum_ty['adt'], idx[0], [])), 'eq': 1}
                 return {'k': 'branch', 'val': ev_v, 'eq': (1 - val) if flip else val}
             opts = []
             for val in vals:
@@ -999,7 +1031,11 @@ class Interp:
             if isbool and len(rest) == 1:
                 opts.append((1 - rest[0], bev(1 - rest[0])))
             elif not (isbool and len(rest) >= 2):
-                opts.append((('not', rest), {'k': 'branch', 'val': v, 'ne': rest}))
+                if enum_ty is not None and len(rest) == 1:
+                    e1 = bev(rest[0])
+                    opts.append((('not', rest), {'k': 'branch', 'val': e1['val'], 'eq': 0}))
+                else:
+                    opts.append((('not', rest), {'k': 'branch', 'val': v, 'ne': rest}))
             raise NeedFork(key, opts)
         if k == 'return':
             return self.do_return(st, fr)
